@@ -24,21 +24,30 @@ def pick_shape(rd) -> int:
     return rd.choice([0, 1, 2, 3, 0, 1, 2, 3, 4])
 
 
-def gen_block_table(rd, name: str, n_rows: Optional[int] = None, labels: Optional[List[str]] = None) -> Dict[str, Any]:
-    """a table holding block records (cdata): one row per (id, measure) with complete blocks, physical rows shuffled;
-    "blocks" tells gen_pipeline how to fold it into row records with convert_records"""
+def gen_block_table(rd, name: str, n_rows: Optional[int] = None, like: Optional[Dict[str, Any]] = None) -> Dict[str, Any]:
+    """a table holding block records (cdata): one row per (record key, measure) with complete blocks, physical rows
+    shuffled; "blocks" tells gen_pipeline how to fold it into row records with convert_records. Half of these tables
+    have a composite record key (id, j) with ties in id. `like`: the "blocks" of another batch of the same table."""
     drawn = rd.choice([["a", "b"], ["a", "b"], ["a", "b", "c"], ["hi", "lo"]])
-    labels = list(labels) if labels is not None else drawn  # a second batch of data for the same table keeps the labels
+    composite = rd.random() < 0.5
+    if like is not None:
+        drawn, composite = list(like["labels"]), len(like["keys"]) > 1
+    labels = drawn
     nrec = rd.choice([0, 1, 2, 3, 4, 5, 6]) if n_rows is None else n_rows // len(labels)
-    ids = rd.sample(range(1, max(40, 3 * nrec + 1)), nrec)
+    if composite:
+        universe = [(i, j) for i in range(1, max(3, nrec)) for j in (1, 2, 3)]
+        recs = rd.sample(universe, min(nrec, len(universe))) if nrec <= len(universe) else [(i, 1) for i in range(nrec)]
+    else:
+        recs = [(i,) for i in rd.sample(range(1, max(40, 3 * nrec + 1)), nrec)]
     null_rate = rd.choice([0.0, 0.15, 0.3])
-    rows = [(i, m, None if rd.random() < null_rate else rd.randrange(-8, 41) / 4.0) for i in ids for m in labels]
+    rows = [(rec, m, None if rd.random() < null_rate else rd.randrange(-8, 41) / 4.0) for rec in recs for m in labels]
     rd.shuffle(rows)
-    cols = [{"name": "id", "kind": "igroup", "values": [r_[0] for r_ in rows]},
-            {"name": "m", "kind": "group", "values": [r_[1] for r_ in rows]},
-            {"name": "val", "kind": "float", "values": [r_[2] for r_ in rows]}]
+    keys = ["id", "j"] if composite else ["id"]
+    cols = [{"name": k, "kind": "igroup", "values": [r_[0][ki] for r_ in rows]} for ki, k in enumerate(keys)]
+    cols += [{"name": "m", "kind": "group", "values": [r_[1] for r_ in rows]},
+             {"name": "val", "kind": "float", "values": [r_[2] for r_ in rows]}]
     return {"name": name, "cols": cols,
-            "blocks": {"keys": ["id"], "measure": "m", "value": "val", "labels": labels, "cols": ["v_" + m for m in labels]}}
+            "blocks": {"keys": keys, "measure": "m", "value": "val", "labels": labels, "cols": ["v_" + m for m in labels]}}
 
 
 def gen_table(rd, name: str, n_rows: Optional[int] = None, shape: Optional[int] = None) -> Dict[str, Any]:
@@ -659,7 +668,7 @@ def gen_pipeline(r, tables: Dict[str, Dict[str, Any]], max_steps: int = 7, want_
         # the source holds block records in whatever physical order the schedule gives them: fold them into row records
         head = [{"t": "convert_records", "dir": "in", "keys": list(bl["keys"]), "measure": bl["measure"], "value": bl["value"],
                  "labels": list(bl["labels"]), "cols": list(bl["cols"])}]
-        cols0 = {k: "key" for k in bl["keys"]}
+        cols0 = {k: ("key" if len(bl["keys"]) == 1 else "igroup") for k in bl["keys"]}
         cols0.update({c: "float" for c in bl["cols"]})
     steps, cols = gen_steps(r, cols0, others, max_steps, sizes=sizes, est0=sizes[src])
     steps = head + steps
@@ -724,14 +733,17 @@ def apply_step(ops, st, descrs):
         b = build_pipeline(st["b"], descrs)
         return ops.concat_rows(b=b, id_column=st.get("id_column"))
     if t == "convert_records":
-        import pandas as pd
-        import data_algebra.cdata as cd
-
-        spec = cd.RecordSpecification(pd.DataFrame({st["measure"]: list(st["labels"]), st["value"]: list(st["cols"])}),
-                                      record_keys=list(st["keys"]), control_table_keys=[st["measure"]])
-        rm = cd.RecordMap(blocks_out=spec) if st["dir"] == "out" else cd.RecordMap(blocks_in=spec)
-        return ops.convert_records(rm)
+        return ops.convert_records(record_map_of(st))
     raise ValueError(t)
+
+
+def record_map_of(st):
+    import pandas as pd
+    import data_algebra.cdata as cd
+
+    spec = cd.RecordSpecification(pd.DataFrame({st["measure"]: list(st["labels"]), st["value"]: list(st["cols"])}),
+                                  record_keys=list(st["keys"]), control_table_keys=[st["measure"]])
+    return cd.RecordMap(blocks_out=spec) if st["dir"] == "out" else cd.RecordMap(blocks_in=spec)
 
 
 def pipeline_tables(pipe) -> List[str]:
